@@ -51,18 +51,64 @@ def step_prop(funcs_extra=(), owner=None):
             'assumptions': STEP_ASSUME, 'outside': STEP_OUT, 'parts': [step_part(owner)]}
 
 
-PROPS = {
-    'C06': {'level': 'other', 'rule': 'one obligation per (function, clause of its specification); the functions are the MIR bodies of the current tree; non-trivial = obligation whose function body was symbolically executed along at least one path',
+EXEC_FUNCS = ['Dispatcher::{setup,dispose,dispatch,dispatch_par,dispatch_seq,dispatch_thread_local,try_into_sendable,max_threads}',
+              'SendDispatcher::{setup,dispose,dispatch,dispatch_par,dispatch_seq,max_threads}', 'Stage::{setup,dispose,execute,execute_seq,max_threads}',
+              'BatchControllerSystem::{run,setup,dispose,accessor}', '<T as RunNow>::{run_now,setup,dispose}', 'new_dispatcher']
+EXEC_BOUNDS = {'layouts': '[[1],[2]],[[1]] | [[5],[1]] | [[1],[1],[1]],[[1]],[[1],[1]] | batch next to one system, inner [[1],[1]],[[1]] | batch with an inner thread-local system',
+               'thread-local systems': '0..2', 'call sequences': 'two dispatch calls per instance out of dispatch/dispatch_par/dispatch_seq/dispatch_thread_local, then dispose or try_into_sendable',
+               'inner dispatches per controller run': '0,1,2', 'job start order inside a parallel region': 'solver variable (forward / reverse)'}
+EXEC_ASSUME = ['rayon is replaced by a sequential contract model: every for_each / join opens a region whose jobs may overlap arbitrarily, each job runs exactly once, the call returns after all jobs, install runs the closure inside the pool',
+               'layouts are constructed directly through the verif-hooks (Stage::verif_push, new_dispatcher); that the planner tabulates what is executed is the commit harness',
+               'harness systems keep their data outside the World (no hashbrown in the formula)']
+EXEC_OUT = ['real thread interleavings and timing', 'pool sizes (the model has no worker count)', 'layouts beyond the list', 'async dispatcher']
+RULE_EXEC = ('one Kani/CBMC harness instance per concrete layout x call sequence; the start order of the jobs of every parallel region is a solver variable; '
+             'non-trivial = decided instance whose reachability witnesses are satisfied')
+
+
+def exec_part(owner=None):
+    return {'engine': 'kani', 'family': 'exec', 'module': 'exec', 'select': sel('exec', r'^exec_'), 'unlabelled_owner': owner,
+            'jobs': 10, 'timeout_quick': 900, 'timeout_thorough': 2400, 'mem_gb': 14}
+
+
+PROPS_C06 = {'level': 'other', 'rule': 'one obligation per (function, clause of its specification); the functions are the MIR bodies of the current tree; non-trivial = obligation whose function body was symbolically executed along at least one path',
             'explanation': 'E2: symbolic execution of the nightly MIR of the current tree (callees uninterpreted, Vec<ResourceId> as z3 sequences), z3 decides every comparison, cvc5 re-decides the same SMT-LIB text',
             'functions': [], 'bounds': {'loop unrolling': 3, 'tuple arities': '1..26', 'derive samples': 'mir/derive_samples (7 structs, nesting 3)'},
             'assumptions': ['callees that are type parameters or third-party code are uninterpreted: the claim is parametric in them', 'atomic_refcell releases a borrow when its guard is dropped', 'rustc nightly MIR (debug-assertions off) is the semantics of the source'],
             'outside': ['run-time borrow state of a populated World (hashbrown)', 'user-written SystemData impls'],
-            'parts': [{'engine': 'mir'}]},
-    'C01': step_prop(),
-    'C02': step_prop(),
-    'C10': step_prop(),
-    'C18': step_prop(owner='C18'),
-    'C03': {'level': 'model_checking', 'rule': RULE_STEP, 'functions': STEP_FUNCS + ['StagesBuilder::add_barrier'], 'bounds': STEP_BOUNDS,
-            'assumptions': STEP_ASSUME, 'outside': STEP_OUT,
-            'parts': [step_part()]},
+            'parts': [{'engine': 'mir'}]}
+
+MIR_ASSUME = ['callees that are type parameters or third-party code are uninterpreted (the claim is parametric in them); std collection/iterator contracts are assumed',
+              'rustc nightly MIR (debug-assertions off) is the semantics of the source', 'loops are unrolled 3 times (0..3 items)']
+MIR_RULE = ('E2 obligations: one per (function of the current MIR dump, clause of its specification); z3 decides every value comparison and path feasibility, '
+            'cvc5 re-decides the same SMT-LIB text; non-trivial = obligation over a function whose body was symbolically executed')
+
+
+def mir_part(specs=None):
+    return {'engine': 'mir', 'specs': specs}
+
+
+def prop(level, parts, funcs, bounds, assume, outside, rule, explanation=None):
+    d = {'level': level, 'parts': parts, 'functions': funcs, 'bounds': bounds, 'assumptions': assume, 'outside': outside, 'rule': rule}
+    if explanation:
+        d['explanation'] = explanation
+    return d
+
+
+def both(a, b):
+    return {**a, **b}
+
+
+PROPS = {
+    'C01': prop('model_checking', [step_part(), exec_part()], STEP_FUNCS + EXEC_FUNCS, both(STEP_BOUNDS, EXEC_BOUNDS), STEP_ASSUME + EXEC_ASSUME, STEP_OUT + EXEC_OUT, RULE_STEP + ' | ' + RULE_EXEC),
+    'C02': prop('model_checking', [step_part(), exec_part(), mir_part(['spec_add'])], STEP_FUNCS + EXEC_FUNCS + ['DispatcherBuilder::add'], both(STEP_BOUNDS, EXEC_BOUNDS), STEP_ASSUME + EXEC_ASSUME + MIR_ASSUME, STEP_OUT + EXEC_OUT, RULE_STEP + ' | ' + RULE_EXEC + ' | ' + MIR_RULE),
+    'C03': prop('model_checking', [step_part(), exec_part(), mir_part(['spec_add_barrier'])], STEP_FUNCS + ['StagesBuilder::add_barrier', 'DispatcherBuilder::add_barrier'], both(STEP_BOUNDS, EXEC_BOUNDS), STEP_ASSUME + EXEC_ASSUME + MIR_ASSUME, STEP_OUT + EXEC_OUT, RULE_STEP + ' | ' + RULE_EXEC + ' | ' + MIR_RULE),
+    'C04': prop('model_checking', [exec_part('C04'), mir_part()], EXEC_FUNCS + ['MultiDispatcher::run', 'DispatcherBuilder::add_batch'], EXEC_BOUNDS, EXEC_ASSUME + MIR_ASSUME, EXEC_OUT + ['hundreds of systems as one concrete plan (covered through the commit induction)'], RULE_EXEC + ' | ' + MIR_RULE),
+    'C05': prop('model_checking', [exec_part()], EXEC_FUNCS, EXEC_BOUNDS, EXEC_ASSUME, EXEC_OUT + ['that non-conflicting steps commute on the real World under real interleavings (reduced claim: order agreement of dispatch_par and dispatch_seq on every ordered pair)'], RULE_EXEC),
+    'C06': PROPS_C06,
+    'C07': prop('other', [mir_part()], ['DispatcherBuilder::add_batch', 'BatchAccessor::{new,reads,writes}', 'BatchControllerSystem::{create,run,accessor,running_time}', 'BatchUncheckedWorld::{fetch,setup}'], {'loop unrolling': 3, 'nesting': 'any depth: a nested batch is an ordinary system of the inner builder'}, MIR_ASSUME + ['fetch_all_reads/fetch_all_writes return every id of every group (E1 unit harness, thorough)', 'sort/dedup preserve membership (std contract)'], ['interleavings of outer systems with the batch (C01 applies to the batch as one system)'], MIR_RULE, 'E2 symbolic execution of the batch glue'),
+    'C10': prop('model_checking', [step_part(), exec_part()], STEP_FUNCS + ['SendDispatcher::max_threads', 'Stage::max_threads'], both(STEP_BOUNDS, EXEC_BOUNDS), STEP_ASSUME + EXEC_ASSUME, STEP_OUT, RULE_STEP + ' | ' + RULE_EXEC),
+    'C11': prop('model_checking', [exec_part(), mir_part()], EXEC_FUNCS + ['DispatcherBuilder::{build,create_thread_pool,add_batch}'], EXEC_BOUNDS, EXEC_ASSUME + MIR_ASSUME, ['that real rayon with enough idle workers actually overlaps the jobs (liveness of rayon\'s scheduler)', 'async dispatcher'], RULE_EXEC + ' | ' + MIR_RULE),
+    'C12': prop('model_checking', [exec_part(), mir_part()], EXEC_FUNCS + ['DispatcherBuilder::add_thread_local', 'AsyncDispatcher::wait'], EXEC_BOUNDS, EXEC_ASSUME + MIR_ASSUME, ['Dispatcher is !Send (a compile-time fact)', 'async dispatcher beyond the shape of wait()'], RULE_EXEC + ' | ' + MIR_RULE),
+    'C13': prop('model_checking', [exec_part(), mir_part()], EXEC_FUNCS + ['DefaultProvider::setup', 'PanicHandler::setup'], EXEC_BOUNDS, EXEC_ASSUME + MIR_ASSUME, ['"no existing resource modified" on a populated World (hashbrown) beyond Entry::or_insert_with being the only mutation', 'async dispatcher setup'], RULE_EXEC + ' | ' + MIR_RULE),
+    'C18': prop('model_checking', [step_part('C18'), mir_part()], STEP_FUNCS + ['DispatcherBuilder::{add,next_id,add_barrier,add_thread_local}'], STEP_BOUNDS, STEP_ASSUME + MIR_ASSUME, STEP_OUT + ['names needing sanitising (only the printer looks at them)'], RULE_STEP + ' | ' + MIR_RULE),
 }
